@@ -8,6 +8,7 @@ CONSTANTS
   MayThrow = TRUE
   Spurious = TRUE
   AnyOrder = FALSE
+  StopUnlocked = FALSE
 INIT TraceInit
 NEXT TraceNext
 INVARIANTS AtMostOnce ExactlyOnceOnReturn ChunksTile TnumBelowSize TnumExclusive ReturnAfterAllDone RethrowIffAsked
